@@ -5,6 +5,7 @@ package props
 import (
 	"fmt"
 	"testing"
+	"time"
 
 	"github.com/boombuler/barcode/utils"
 	"pgregory.net/rapid"
@@ -104,8 +105,11 @@ func genBLCase(t *rapid.T) BLCase {
 		case 8:
 			return BLOp{Op: "bytes"}
 		case 9:
-			if rapid.IntRange(0, 2).Draw(t, "two") == 0 {
+			switch rapid.IntRange(0, 4).Draw(t, "two") {
+			case 0:
 				return BLOp{Op: "iter2"}
+			case 1:
+				return BLOp{Op: "iterhold"}
 			}
 			return BLOp{Op: "iter"}
 		case 10:
@@ -192,6 +196,7 @@ func checkBitList(t TB, c BLCase) (words int, crossed bool, setAfterAppend bool)
 	}
 	compare(-1, true)
 	appended := false
+	var held []<-chan byte
 	for step, op := range c.Ops {
 		var getGot, getWant bool
 		var iterGot, iter2Got []byte
@@ -221,6 +226,21 @@ func checkBitList(t TB, c BLCase) (words int, crossed bool, setAfterAppend bool)
 			case "iter":
 				for b := range bl.IterateBytes() {
 					iterGot = append(iterGot, b)
+				}
+			case "iterhold": // a view read to exactly its length (as a consumer that knows the length does), kept until the end
+				// (an empty list is skipped: its producer goroutine reads the length only after IterateBytes has returned,
+				// so without a first byte nothing orders that read before the caller's next append - the list must not be
+				// modified between requesting a view and receiving its first byte; see DESIGN.md section 11)
+				if len(model) > 0 {
+					ch := bl.IterateBytes()
+					for i := 0; i < (len(model)+7)/8; i++ {
+						b, ok := <-ch
+						if !ok {
+							break
+						}
+						iterGot = append(iterGot, b)
+					}
+					held = append(held, ch)
 				}
 			case "iter2": // two channel views of the unchanged list, the second one opened while the first is half read
 				first := bl.IterateBytes()
@@ -282,6 +302,10 @@ func checkBitList(t TB, c BLCase) (words int, crossed bool, setAfterAppend bool)
 			}
 		case "bytes":
 			// compared below
+		case "iterhold":
+			if want := packModel(model); len(model) > 0 && string(iterGot) != string(want) {
+				fail(step, "a channel view read to exactly its length yielded % x, model % x", trunc(iterGot), trunc(want))
+			}
 		case "iter2":
 			want := packModel(model)
 			if string(iterGot) != string(want) {
@@ -307,6 +331,12 @@ func checkBitList(t TB, c BLCase) (words int, crossed bool, setAfterAppend bool)
 		compare(step, len(model) <= 6000)
 	}
 	compare(len(c.Ops), true)
+	// views that were read to their full length earlier: whatever was appended since, they have nothing more to say
+	for i, ch := range held {
+		if b, ok := <-ch; ok {
+			fail(len(c.Ops), "channel view %d had delivered its whole sequence, yet it yields another byte (%#02x) after later appends", i, b)
+		}
+	}
 	// channel view == slice view at the end, always
 	want := packModel(model)
 	var final []byte
@@ -395,7 +425,7 @@ func TestC18Exhaustive(t *testing.T) {
 		{Op: "addbyte", V: 0xA7},
 		{Op: "set", V: 0, Bit: true}, {Op: "set", V: 5, Bit: false}, // last bit (V%5==0 rule) / some index
 		{Op: "set", V: 31, Bit: true},
-		{Op: "iter"}, {Op: "iter2"},
+		{Op: "iter"}, {Op: "iter2"}, {Op: "iterhold"},
 	}
 	depth := 4
 	if thorough() {
@@ -459,6 +489,37 @@ func TestC18Exhaustive(t *testing.T) {
 			c18Account(st, sweep[i], words, crossed, setAfter)
 			st.Class("variadic append sweep")
 		})
+	})
+	// a slow consumer: the channel view delivers the whole sequence at whatever pace it is read
+	ct.guard(func() {
+		pause := 2500 * time.Millisecond
+		if thorough() {
+			pause = 11 * time.Second
+		}
+		bl := utils.NewBitList(0)
+		var model []bool
+		for i := 0; i < 333; i++ {
+			bl.AddBit(i%3 == 0)
+			model = append(model, i%3 == 0)
+		}
+		want := packModel(model)
+		var got []byte
+		ch := bl.IterateBytes()
+		for i := 0; i < 4; i++ {
+			got = append(got, <-ch)
+		}
+		time.Sleep(pause)
+		for b := range ch {
+			got = append(got, b)
+			if len(got) == 20 {
+				time.Sleep(pause / 5)
+			}
+		}
+		st.Eval()
+		st.Class("slow consumer of a channel view")
+		if string(got) != string(want) {
+			failf(ct, "C18", "bitlist-model", BLCase{New: 0, Ops: []BLOp{{Op: "bulk", V: 2, N: 333}, {Op: "iter"}}}, "a consumer that paused %v after four bytes received % x, model % x", pause, trunc(got), trunc(want))
+		}
 	})
 	st.Set("exhaustive", true)
 	st.Set("exhaustive_domain", fmt.Sprintf("all sequences of length 0..%d over %d ops from %d start states; plus one variadic append of 32..4097 bits x 7 patterns x %d start lengths", depth, len(alphabet), len(starts), len(blBoundaries)+1))
